@@ -50,7 +50,8 @@ def main():
             r = sh(f"PYTHONPATH={wt} /venv/bin/python {demo}", cwd=wt, timeout=600)
             out["demo_patched_exit"] = r.returncode
             out["demo_patched_tail"] = (r.stdout + r.stderr)[-300:]
-        t = sh(f"cd {wt} && PYTHONPATH={wt} /venv/bin/python -m pytest -q -p no:cacheprovider --timeout=900 --continue-on-collection-errors 2>&1 | tail -1")
+        os.makedirs(wt + "_tmp", exist_ok=True)
+        t = sh(f"cd {wt} && TMPDIR={wt}_tmp PYTHONPATH={wt} /venv/bin/python -m pytest -q -p no:cacheprovider --timeout=900 --continue-on-collection-errors 2>&1 | tail -1")
         m = re.search(r"(\d+) passed", t.stdout)
         out["tests_passed"] = int(m.group(1)) if m else None
         out["tests_failed"] = "failed" in t.stdout
@@ -66,6 +67,7 @@ def main():
         if "--keep" not in sys.argv:
             sh(f"git -C /repo worktree remove --force {wt}")
             shutil.rmtree(wt, ignore_errors=True)
+            shutil.rmtree(wt + "_tmp", ignore_errors=True)
     print("SEEDED " + json.dumps(out))
 
 
